@@ -148,8 +148,328 @@ impl EhdrPod {
     }
 }
 
-pub struct BytesSession {}
 
-pub fn file_op(_x: &mut Exec, _op: &Value) -> Vec<Value> {
-    unimplemented!("file ops")
+use elf::abi;
+use elf::note::Note;
+use elf::parse::ParsingTable;
+use elf::section::SectionHeader;
+use elf::segment::ProgramHeader;
+use elf::string_table::StringTable;
+use elf::ElfBytes;
+
+pub enum BytesSession {
+    LE(ElfBytes<'static, LittleEndian>, &'static [u8]),
+    BE(ElfBytes<'static, BigEndian>, &'static [u8]),
+    Any(ElfBytes<'static, AnyEndian>, &'static [u8]),
 }
+
+pub fn ck(b: &[u8]) -> u64 {
+    let mut acc: u64 = 7;
+    for x in b.iter().take(512) {
+        acc = (acc * 31 + *x as u64 + 1) % 65521;
+    }
+    acc
+}
+
+/// projection of a byte slice handed out by a parser; base = the caller's buffer (slice parser only)
+pub fn data_proj(base: Option<&[u8]>, s: &[u8]) -> Value {
+    let mut v = json!({"len": s.len(), "ck": ck(s)});
+    if let Some(b) = base {
+        v["rng"] = rng(b, s);
+    }
+    v
+}
+
+/// walk the NUL-terminated strings of a string table from offset 0 (at most 64)
+pub fn strtab_proj(base: Option<&[u8]>, st: &StringTable<'_>) -> Value {
+    let mut off = 0usize;
+    let mut n = 0usize;
+    let mut walked: Vec<u8> = Vec::new();
+    let mut start: Option<Value> = None;
+    while n < 64 {
+        match st.get_raw(off) {
+            Ok(s) => {
+                if start.is_none() {
+                    if let Some(b) = base {
+                        let p = s.as_ptr() as usize;
+                        let b0 = b.as_ptr() as usize;
+                        start = Some(if p >= b0 + off && p <= b0 + b.len() { json!(p - b0 - off) } else { json!("foreign") });
+                    }
+                }
+                walked.extend_from_slice(s);
+                walked.push(0);
+                off += s.len() + 1;
+                n += 1;
+            }
+            Err(_) => break,
+        }
+    }
+    let mut v = json!({"some": true, "nstr": n, "walked": off, "ck": ck(&walked)});
+    if base.is_some() {
+        v["start"] = start.unwrap_or(json!(0));
+    }
+    v
+}
+
+pub fn pick_idx(n: usize) -> Vec<usize> {
+    if n <= 24 {
+        (0..n).collect()
+    } else {
+        vec![0, 1, 2, n / 2, n - 3, n - 2, n - 1]
+    }
+}
+
+pub fn tbl_proj<E: EndianParse, P: elf::parse::ParseAt + Proj>(t: &ParsingTable<'_, E, P>) -> Value {
+    let n = t.len();
+    let idx = pick_idx(n);
+    let ents: Vec<Value> = idx.iter().map(|i| match t.get(*i) { Ok(v) => v.proj(), Err(_) => json!({"bad":true}) }).collect();
+    json!({"some": true, "n": w8(n as u64), "idx": idx.iter().map(|i| w8(*i as u64)).collect::<Vec<_>>(), "ents": ents})
+}
+
+pub fn vec_proj<P: Proj>(v: &[P]) -> Value {
+    let n = v.len();
+    let idx = pick_idx(n);
+    json!({"some": true, "n": w8(n as u64), "idx": idx.iter().map(|i| w8(*i as u64)).collect::<Vec<_>>(),
+           "ents": idx.iter().map(|i| v[*i].proj()).collect::<Vec<_>>()})
+}
+
+pub fn shdr_from(v: &Value) -> SectionHeader {
+    SectionHeader {
+        sh_name: rd_w(&v["sh_name"]) as u32,
+        sh_type: rd_w(&v["sh_type"]) as u32,
+        sh_flags: rd_w(&v["sh_flags"]),
+        sh_addr: rd_w(&v["sh_addr"]),
+        sh_offset: rd_w(&v["sh_offset"]),
+        sh_size: rd_w(&v["sh_size"]),
+        sh_link: rd_w(&v["sh_link"]) as u32,
+        sh_info: rd_w(&v["sh_info"]) as u32,
+        sh_addralign: rd_w(&v["sh_addralign"]),
+        sh_entsize: rd_w(&v["sh_entsize"]),
+    }
+}
+pub fn phdr_from(v: &Value) -> ProgramHeader {
+    ProgramHeader {
+        p_type: rd_w(&v["p_type"]) as u32,
+        p_offset: rd_w(&v["p_offset"]),
+        p_vaddr: rd_w(&v["p_vaddr"]),
+        p_paddr: rd_w(&v["p_paddr"]),
+        p_filesz: rd_w(&v["p_filesz"]),
+        p_memsz: rd_w(&v["p_memsz"]),
+        p_flags: rd_w(&v["p_flags"]) as u32,
+        p_align: rd_w(&v["p_align"]),
+    }
+}
+
+fn mres<T>(r: Result<Result<T, elf::ParseError>, String>, f: impl FnOnce(T) -> Value) -> Value {
+    match r {
+        Err(p) => panic_res(&p),
+        Ok(Err(e)) => err(&e),
+        Ok(Ok(v)) => f(v),
+    }
+}
+
+pub fn req_proj_c(strb: Option<&[u8]>, r: &elf::gnu_symver::SymbolRequirement<'_>) -> Value {
+    let mut v = json!({"out":"ok","file_b":bytes_val(r.file.as_bytes()),"name_b":bytes_val(r.name.as_bytes()),
+           "hash":w4(r.hash),"flags":w2(r.flags),"hidden":r.hidden});
+    if let Some(b) = strb {
+        v["file"] = rng(b, r.file.as_bytes());
+        v["name"] = rng(b, r.name.as_bytes());
+    }
+    v
+}
+
+/// the queries of a symbol-version table embedded in one result: qs = [["req"|"def", W8]...]
+pub fn symver_embedded<E: EndianParse>(t: &elf::gnu_symver::SymbolVersionTable<'_, E>, qs: &[Value], base: Option<&[u8]>) -> (Vec<Value>, u64, u64) {
+    let mut out = Vec::new();
+    let (mut ta, mut tm) = (0u64, 0u64);
+    for q in qs {
+        let what = q[0].as_str().unwrap_or("req");
+        let i = rd_w(&q[1]) as usize;
+        if what == "req" {
+            let (r, a, m) = measured(|| t.get_requirement(i));
+            ta += a; tm = tm.max(m);
+            let res = match r {
+                Err(p) => panic_res(&p),
+                Ok(Err(e)) => err(&e),
+                Ok(Ok(None)) => json!({"out":"none"}),
+                Ok(Ok(Some(rq))) => req_proj_c(base, &rq),
+            };
+            out.push(json!({"k":"req","i":q[1].clone(),"r":res}));
+        } else {
+            let mut names: Vec<Result<&str, elf::ParseError>> = Vec::with_capacity(256);
+            let (r, a, m) = measured(|| {
+                t.get_definition(i).map(|o| o.map(|d| {
+                    let (h, f, hid) = (d.hash, d.flags, d.hidden);
+                    for nm in d.names { if names.len() < 256 { names.push(nm); } else { break; } }
+                    (h, f, hid)
+                }))
+            });
+            ta += a; tm = tm.max(m);
+            let res = match r {
+                Err(p) => panic_res(&p),
+                Ok(Err(e)) => err(&e),
+                Ok(Ok(None)) => json!({"out":"none"}),
+                Ok(Ok(Some((h, f, hid)))) => json!({"out":"ok","hash":w4(h),"flags":w2(f),"hidden":hid,
+                    "names": names.iter().map(|x| match x {
+                        Ok(s) => { let mut v = json!({"out":"ok","b":bytes_val(s.as_bytes())}); if let Some(b) = base { v["s"] = rng(b, s.as_bytes()); } v }
+                        Err(_) => json!({"out":"err"}) }).collect::<Vec<_>>()}),
+            };
+            out.push(json!({"k":"def","i":q[1].clone(),"r":res}));
+        }
+    }
+    (out, ta, tm)
+}
+
+fn bytes_q<E: EndianParse>(eb: &ElfBytes<'static, E>, base: &'static [u8], op: &Value) -> Value {
+    let name = op["name"].as_str().unwrap_or("");
+    let b = Some(base);
+    match name {
+        "shdrs_with_strtab" => {
+            let (r, a, m) = measured(|| eb.section_headers_with_strtab());
+            event(op, mres(r, |(sh, st)| json!({"out":"ok","sh_some":sh.is_some(),
+                "strtab": match st { Some(s) => strtab_proj(b, &s), None => json!({"some":false}) }})), a, m)
+        }
+        "shdr_by_name" => {
+            let nm = rd_bytes(&op["qname"]);
+            let s = std::str::from_utf8(&nm).unwrap_or("");
+            let (r, a, m) = measured(|| eb.section_header_by_name(s));
+            event(op, mres(r, |o| match o { Some(h) => json!({"out":"ok","f":h.proj()}), None => json!({"out":"none"}) }), a, m)
+        }
+        "section_data" => {
+            let sh = shdr_from(&op["shdr"]);
+            let (r, a, m) = measured(|| eb.section_data(&sh));
+            event(op, mres(r, |(d, c)| json!({"out":"ok","data":data_proj(b, d),
+                "chdr": match c { Some(c) => json!({"some":true,"f":c.proj()}), None => json!({"some":false}) }})), a, m)
+        }
+        "section_data_as_strtab" => {
+            let sh = shdr_from(&op["shdr"]);
+            let (r, a, m) = measured(|| eb.section_data_as_strtab(&sh));
+            event(op, mres(r, |s| json!({"out":"ok","str":strtab_proj(b, &s)})), a, m)
+        }
+        "section_data_as_rels" => {
+            let sh = shdr_from(&op["shdr"]);
+            let mut items = Vec::with_capacity(ITER_CAP);
+            let (r, a, m) = measured(|| eb.section_data_as_rels(&sh).map(|it| { let mut n = 0usize; for x in it { if items.len() < ITER_CAP { items.push(x); } n += 1; if n > 4 * ITER_CAP { break; } } n }));
+            event(op, mres(r, |n| json!({"out":"ok","n":n,"items":items.iter().map(|x| x.proj()).collect::<Vec<_>>()})), a, m)
+        }
+        "section_data_as_relas" => {
+            let sh = shdr_from(&op["shdr"]);
+            let mut items = Vec::with_capacity(ITER_CAP);
+            let (r, a, m) = measured(|| eb.section_data_as_relas(&sh).map(|it| { let mut n = 0usize; for x in it { if items.len() < ITER_CAP { items.push(x); } n += 1; if n > 4 * ITER_CAP { break; } } n }));
+            event(op, mres(r, |n| json!({"out":"ok","n":n,"items":items.iter().map(|x| x.proj()).collect::<Vec<_>>()})), a, m)
+        }
+        "section_data_as_notes" | "segment_data_as_notes" => {
+            let mut items: Vec<Note<'static>> = Vec::with_capacity(ITER_CAP);
+            let (r, a, m) = measured(|| {
+                let it = if name == "section_data_as_notes" { eb.section_data_as_notes(&shdr_from(&op["shdr"])) } else { eb.segment_data_as_notes(&phdr_from(&op["phdr"])) };
+                it.map(|it| { let mut n = 0usize; for x in it { if items.len() < ITER_CAP { items.push(x); } n += 1; if n > 4 * ITER_CAP { break; } } n })
+            });
+            event(op, mres(r, |n| json!({"out":"ok","n":n,"items":items.iter().map(|x| crate::sections::note_proj(base, x)).collect::<Vec<_>>()})), a, m)
+        }
+        "segment_data" => {
+            let ph = phdr_from(&op["phdr"]);
+            let (r, a, m) = measured(|| eb.segment_data(&ph));
+            event(op, mres(r, |d| json!({"out":"ok","data":data_proj(b, d)})), a, m)
+        }
+        "symbol_table" | "dynamic_symbol_table" => {
+            let (r, a, m) = measured(|| if name == "symbol_table" { eb.symbol_table() } else { eb.dynamic_symbol_table() });
+            event(op, mres(r, |o| match o { None => json!({"out":"none"}),
+                Some((sy, st)) => json!({"out":"ok","sym":tbl_proj(&sy),"str":strtab_proj(b, &st)}) }), a, m)
+        }
+        "dynamic" => {
+            let (r, a, m) = measured(|| eb.dynamic());
+            event(op, mres(r, |o| match o { None => json!({"out":"none"}), Some(t) => json!({"out":"ok","tbl":tbl_proj(&t)}) }), a, m)
+        }
+        "symbol_version_table" => {
+            let qs: Vec<Value> = op["qs"].as_array().cloned().unwrap_or_default();
+            let (r, a, m) = measured(|| eb.symbol_version_table());
+            match r {
+                Ok(Ok(Some(t))) => {
+                    let (q, a2, m2) = symver_embedded(&t, &qs, b);
+                    event(op, json!({"out":"ok","qs":q}), a + a2, m.max(m2))
+                }
+                Ok(Ok(None)) => event(op, json!({"out":"none"}), a, m),
+                Ok(Err(e)) => event(op, err(&e), a, m),
+                Err(p) => event(op, panic_res(&p), a, m),
+            }
+        }
+        "find_common_data" => {
+            let names: Vec<Vec<u8>> = op["names"].as_array().map(|a| a.iter().map(rd_bytes).collect()).unwrap_or_default();
+            let (r, a, m) = measured(|| eb.find_common_data());
+            match r {
+                Err(p) => event(op, panic_res(&p), a, m),
+                Ok(Err(e)) => event(op, err(&e), a, m),
+                Ok(Ok(c)) => {
+                    let opt_t = |o: &Option<elf::symbol::SymbolTable<'static, E>>| match o { Some(t) => { let mut v = tbl_proj(t); v["some"] = json!(true); v } None => json!({"some":false}) };
+                    let opt_s = |o: &Option<StringTable<'static>>| match o { Some(t) => { let mut v = strtab_proj(b, t); v["some"] = json!(true); v } None => json!({"some":false}) };
+                    let mut res = json!({"out":"ok","symtab":opt_t(&c.symtab),"symtab_strs":opt_s(&c.symtab_strs),
+                        "dynsyms":opt_t(&c.dynsyms),"dynsyms_strs":opt_s(&c.dynsyms_strs),
+                        "dynamic": match &c.dynamic { Some(t) => { let mut v = tbl_proj(t); v["some"] = json!(true); v } None => json!({"some":false}) }});
+                    let (mut ta, mut tm) = (a, m);
+                    let find_res = |r: Result<Result<Option<(usize, elf::symbol::Symbol)>, elf::ParseError>, String>| match r {
+                        Err(p) => panic_res(&p), Ok(Err(e)) => err(&e), Ok(Ok(None)) => json!({"out":"none"}),
+                        Ok(Ok(Some((i, s)))) => json!({"out":"ok","idx":w8(i as u64),"sym":s.proj()}) };
+                    let mut sysv = json!({"some": c.sysv_hash.is_some()});
+                    let mut gnu = json!({"some": c.gnu_hash.is_some()});
+                    if let Some(g) = &c.gnu_hash { gnu["hdr"] = g.hdr.proj(); }
+                    if let (Some(sy), Some(st)) = (&c.dynsyms, &c.dynsyms_strs) {
+                        if let Some(h) = &c.sysv_hash {
+                            let mut v = Vec::new();
+                            for nm in &names { let (r, a, m) = measured(|| h.find(nm, sy, st)); ta += a; tm = tm.max(m); v.push(find_res(r)); }
+                            sysv["finds"] = json!(v);
+                        }
+                        if let Some(h) = &c.gnu_hash {
+                            let mut v = Vec::new();
+                            for nm in &names { let (r, a, m) = measured(|| h.find(nm, sy, st)); ta += a; tm = tm.max(m); v.push(find_res(r)); }
+                            gnu["finds"] = json!(v);
+                        }
+                    }
+                    res["sysv"] = sysv;
+                    res["gnu"] = gnu;
+                    event(op, res, ta, tm)
+                }
+            }
+        }
+        other => panic!("harness: unknown query {other}"),
+    }
+}
+
+fn open_res<E: EndianParse>(eb: &ElfBytes<'static, E>) -> Value {
+    let sh = match eb.section_headers() { Some(t) => { let mut v = tbl_proj(&t); v["some"] = json!(true); v } None => json!({"some":false}) };
+    let ph = match eb.segments() { Some(t) => { let mut v = tbl_proj(&t); v["some"] = json!(true); v } None => json!({"some":false}) };
+    json!({"out":"ok","ehdr":ehdr_proj(&eb.ehdr),"sh":sh,"ph":ph})
+}
+
+pub fn file_op(x: &mut Exec, op: &Value) -> Vec<Value> {
+    if op["op"] == "open" {
+        let base = x.buf(op, "file");
+        let es = op["es"].as_str().unwrap_or("Any");
+        x.bytes = None;
+        let ev = match es {
+            "LE" | "Native" => {
+                let (r, a, m) = measured(|| ElfBytes::<LittleEndian>::minimal_parse(base));
+                match r { Err(p) => event(op, panic_res(&p), a, m), Ok(Err(e)) => event(op, err(&e), a, m),
+                    Ok(Ok(eb)) => { let v = open_res(&eb); x.bytes = Some(BytesSession::LE(eb, base)); event(op, v, a, m) } }
+            }
+            "BE" => {
+                let (r, a, m) = measured(|| ElfBytes::<BigEndian>::minimal_parse(base));
+                match r { Err(p) => event(op, panic_res(&p), a, m), Ok(Err(e)) => event(op, err(&e), a, m),
+                    Ok(Ok(eb)) => { let v = open_res(&eb); x.bytes = Some(BytesSession::BE(eb, base)); event(op, v, a, m) } }
+            }
+            _ => {
+                let (r, a, m) = measured(|| ElfBytes::<AnyEndian>::minimal_parse(base));
+                match r { Err(p) => event(op, panic_res(&p), a, m), Ok(Err(e)) => event(op, err(&e), a, m),
+                    Ok(Ok(eb)) => { let v = open_res(&eb); x.bytes = Some(BytesSession::Any(eb, base)); event(op, v, a, m) } }
+            }
+        };
+        return vec![ev];
+    }
+    match &x.bytes {
+        None => vec![event(op, json!({"out":"closed"}), 0, 0)],
+        Some(BytesSession::LE(eb, b)) => vec![bytes_q(eb, b, op)],
+        Some(BytesSession::BE(eb, b)) => vec![bytes_q(eb, b, op)],
+        Some(BytesSession::Any(eb, b)) => vec![bytes_q(eb, b, op)],
+    }
+}
+#[allow(dead_code)]
+fn _unused() { let _ = abi::SHT_NULL; }
